@@ -34,6 +34,15 @@ def _gen(name):
     return r
 
 
+def _twin(args):
+    name, seed, budget = args
+    from pyvc import replay as RP
+    c = load_contracts().get(name)
+    if c is None:
+        return name, dict(error='no contract')
+    return name, RP.run_twin(name, c, seed=seed, budget=budget, want=None, timeout=300)
+
+
 def _lemma(name):
     from contracts import lemmas
     t0 = time.time()
@@ -89,8 +98,11 @@ def main(argv):
              and k.get('property') == pid]
 
     results = []
-    with ProcessPoolExecutor(max_workers=min(16, max(1, len(funcs) + len(lemma_names)))) as ex:
+    twin_budget = 150 if tier == 'quick' else 1500
+    with ProcessPoolExecutor(max_workers=16) as ex:
+        f_twin = [ex.submit(_twin, (fn, seed, twin_budget)) for fn in funcs]
         results = list(ex.map(_gen, funcs)) + list(ex.map(_lemma, lemma_names))
+        twin = dict(f.result() for f in f_twin)
 
     crashed = [r for r in results if r['error'] and r['error'].startswith('CRASH')]
     untranslated = [r for r in results if r['error'] and not r['error'].startswith('CRASH')]
@@ -144,6 +156,26 @@ def main(argv):
             else:
                 undecided.append(rec)
 
+    # ---- run-time twin (bounded cross-check on executions of the real code; never counted as proof)
+    twin_summary = {}
+    for fn, tr in twin.items():
+        if tr.get('error'):
+            twin_summary[fn] = dict(status=tr['error'][:200])
+            continue
+        twin_summary[fn] = dict(valid_cases=tr.get('valid_cases', 0), outcomes=tr.get('outcomes', {}),
+                                failures=tr.get('n_failures', 0))
+        seen_labels = set()
+        for f in tr.get('failures', []):
+            if f['label'] in seen_labels:
+                continue
+            seen_labels.add(f['label'])
+            kf = load_contracts()[fn].known.get(f['label'])
+            if kf is not None and any(k['id'] == kf['id'] for k in known):
+                continue    # the full clause of a recorded finding fails by definition; its residual is proved
+            violations.append(dict(obligation='%s/twin/%s' % (fn, f['label']), kind='twin', clause=f['clause'],
+                                   solver_result='concrete execution', solver_output='', function=fn,
+                                   function_changed_since_baseline=False, twin_input=f))
+
     # vacuity guard: obligation counts must not shrink to zero / below the recorded floor
     for fn, st in per_fn.items():
         floor = prop.get('min_obligations', {}).get(fn, 1)
@@ -179,7 +211,11 @@ def main(argv):
         rep = None
         try:
             from pyvc import replay as RP
-            rep = RP.try_replay(pid, v, seed)
+            if v.get('kind') == 'twin':
+                rep = dict(reproduced=True, function=v['function'], failing_input=v['twin_input'],
+                           note='clause evaluated to False on an execution of the real function (run-time twin)')
+            else:
+                rep = RP.try_replay(pid, v, seed)
         except Exception as e:     # the replay machinery must never hide the violation
             rep = dict(reproduced=False, note='replay machinery error: %r' % (e,))
         v['replay'] = rep
@@ -209,6 +245,7 @@ def main(argv):
             undecided=[u['obligation'] for u in undecided],
             untranslated=[(r['name'], r['error']) for r in untranslated],
             samples=samples[:12],
+            runtime_twin_bounded=twin_summary,
             explanation=prop.get('explanation', ''),
             termination='not verified (partial correctness)',
         ),
